@@ -1412,6 +1412,70 @@ def validate_rules(rng, n, res):
     res.extra["translation_validation_rules"] = stats
 
 
+def validate_connect_loop(rng, n, res):
+    """the real `Composition._connect_components` on stub components whose `connect` reports scripted statuses
+    (CONNECTING / CONNECTING_IDLE / CONNECTED in any order, scripts that run dry) against the translated loop: outcome
+    (returns / circular-coupling error / other error) and the final statuses"""
+    from finam import schedule as sched
+    from finam.interfaces import ComponentStatus as CS
+
+    if not common.TRANSLATION_STATUS.get("connect_components", {}).get("translated"):
+        return
+    code = {CS.CONNECTED: 0, CS.CONNECTING: 1, CS.CONNECTING_IDLE: 2, CS.INITIALIZED: 3}
+    back = {v: k for k, v in code.items()}
+
+    class _C:
+        def __init__(self, k, script):
+            self.k, self.script, self.status, self.name = k, list(script), CS.INITIALIZED, f"c{k}"
+
+        def connect(self, _t):
+            if not self.script:
+                raise RuntimeError("script ran dry")
+            self.status = back[self.script.pop(0)]
+
+    reqs, reals = [], []
+    stats = {"connect_components": 0, "returned": 0, "circular": 0, "other": 0, "mismatch": 0}
+    for _ in range(n):
+        k = rng.randint(1, 4)
+        scripts = []
+        for _c in range(k):
+            r = rng.random()
+            if r < 0.6:     # some work, then connected
+                sc_ = [rng.choice([1, 1, 2]) for _ in range(rng.randint(0, 4))] + [0]
+            elif r < 0.85:  # stalls
+                sc_ = [rng.choice([1, 2]) for _ in range(rng.randint(0, 3))] + [2] * 12
+            else:
+                sc_ = [rng.choice([0, 1, 2]) for _ in range(rng.randint(0, 5))]
+            scripts.append(sc_)
+        order = list(range(k))
+        rng.shuffle(order)
+        comps = [_C(c, scripts[c]) for c in order]
+        comp = sched.Composition.__new__(sched.Composition)
+        comp._components = comps
+        comp._logger_name = "finam_verif"
+        comp._logger = None
+        comp._check_status = lambda c, allowed: None
+        try:
+            sched.Composition._connect_components(comp, EPOCH)
+            real = {"ok": sorted([c.k, code[c.status]] for c in comps)}
+        except Exception as e:  # noqa
+            real = {"err": err_class(e)}
+        reqs.append({"fn": "connect_components", "args": [order, [[c, 3] for c in order], [[c, scripts[c]] for c in range(k)], 100]})
+        reals.append(real)
+    for rq, real, lv in zip(reqs, reals, _trdriver(reqs)):
+        stats["connect_components"] += 1
+        if "err" in real or "err" in lv:
+            agree = real.get("err") == lv.get("err")
+            stats["circular" if real.get("err") == "FinamCircularCouplingError" else "other"] += 1
+        else:
+            stats["returned"] += 1
+            agree = sorted(list(p) for p in lv["ok"][0]) == real["ok"]
+        if not agree:
+            stats["mismatch"] += 1
+            res.diverge("translation/" + rq["fn"], {"fn": rq["fn"], "args": rq["args"]}, real, lv)
+    res.extra["translation_validation_connect_loop"] = stats
+
+
 def validate(prop, rng, n_per_fn, res):
     """runs the validation for the translated functions owned by `prop`; divergences go to `res`"""
     if prop in ("C13", "C02") and os.path.exists(TRDRIVER):
@@ -1421,6 +1485,7 @@ def validate(prop, rng, n_per_fn, res):
     if prop == "C06" and os.path.exists(TRDRIVER):
         validate_push_data(rng, max(200, n_per_fn), res)
         validate_rules(rng, max(300, n_per_fn), res)
+        validate_connect_loop(rng, max(300, n_per_fn), res)
     if prop == "C10" and os.path.exists(TRDRIVER):
         validate_spill(rng, max(150, n_per_fn), res)
     if prop in ("C07", "C16") and os.path.exists(TRDRIVER):
